@@ -190,6 +190,16 @@ def classify_write(prog, f, n, R, toupper_ok):
             if c > size or c < 0:
                 return 'violation', 'width', '%d bytes are written from an object of %d bytes' % (c, size)
         return 'ok', 'object', '%s object of %d bytes, %s bytes written' % (kind, size, '/'.join(P.show(w) for w in widths))
+    if m['k'] == 'CXXMemberCallExpr' and m['callee']['name'] == 'data' and m['callee'].get('classq') == 'std::vector':
+        import codec
+        z = codec.zero_vector(f, m['obj'], R)
+        if z is not None:
+            for w in widths:
+                if not P.equal(w, z):
+                    d = P.diff_const(z, w)
+                    if d is None or d < 0:
+                        return 'violation', 'zeros', 'byte count %s exceeds the zero buffer of %s bytes' % (P.show(w), P.show(z))
+            return 'ok', 'zeros', 'zero-filled buffer of %s bytes' % P.show(z)
     if m['k'] == 'CXXMemberCallExpr' and m['callee']['name'] in ('c_str', 'data') and m['callee'].get('classq') == 'std::basic_string':
         atom = string_size_atom(f, m['obj'], R, toupper_ok)
         for w in widths:
@@ -273,12 +283,12 @@ def run(prog, tier):
     w = prog.fn('ezc3d::c3d::write', nparams=1)
     save = [prog.funcs[u] for u in sorted(prog.reachable_from([w]))]
     res.info['save_callgraph'] = [f.sig for f in save if not f.implicit]
-    res.minimum('functions in the save call graph', len([f for f in save if not f.implicit]), 40)
+    res.minimum('functions in the save call graph', len([f for f in save if not f.implicit]), 25)
     E = FX.get(prog)
 
     # ---- purity -------------------------------------------------------------------------------
     writers = [f for f in save if f.name == 'write' or f.name == 'writeImbricatedParameter']
-    res.minimum('section writers', len(writers), 12)
+    res.minimum('section writers', len(writers), 6)
     for f in save:
         if f.implicit:
             continue
@@ -371,7 +381,7 @@ def run(prog, tier):
                     res.viol('definedness', key, f.loc(n['id']), detail, function=f.sig, expr=key)
                 else:
                     res.undecided('definedness', key, f.loc(n['id']), detail, function=f.sig, expr=key)
-    res.minimum('write calls in the save call graph', nw, 50)
+    res.minimum('write calls in the save call graph', nw, 25)
 
     # ---- member-init -----------------------------------------------------------------------------
     ni = member_init_rule(prog, res)
